@@ -589,11 +589,11 @@ Qed.
 
 Definition mono_table : list N := map (fun s => spec_mono (N.of_nat s)) (seq 0 255).
 
-Definition basis_check : bool :=
-  let t := mono_table in
+Definition basis_check_with (t : list N) : bool :=
   forallb (fun i => forallb (fun j => N.eqb (dot_impl (2 ^ i) (2 ^ j)) (nth (N.to_nat (i + j)) t 0)) range128) range128.
 
-Lemma basis_ok : basis_check = true.
+(* 128 x 128 monomial pairs, evaluated by the VM (the table is computed once) *)
+Lemma basis_ok : basis_check_with mono_table = true.
 Proof. vm_compute. reflexivity. Qed.
 
 Lemma mono_table_nth s : s < 255 -> nth (N.to_nat s) mono_table 0 = spec_mono s.
@@ -606,16 +606,140 @@ Proof.
     rewrite Nat.add_0_l, Nnat.N2Nat.id. reflexivity.
 Qed.
 
+Lemma basis_forall t : basis_check_with t = true -> forall i, In i range128 -> forall j, In j range128 ->
+  N.eqb (dot_impl (2 ^ i) (2 ^ j)) (nth (N.to_nat (i + j)) t 0) = true.
+Proof.
+  unfold basis_check_with. intros H i Hi j Hj.
+  rewrite forallb_forall in H. specialize (H i Hi). cbv beta in H.
+  rewrite forallb_forall in H. exact (H j Hj).
+Qed.
+
+Lemma basis_pair i j : i < 128 -> j < 128 -> dot_impl (2 ^ i) (2 ^ j) = dot_spec (2 ^ i) (2 ^ j).
+Proof.
+  intros Hi Hj. pose proof (basis_forall mono_table basis_ok i (range128_In i Hi) j (range128_In j Hj)) as H.
+  apply N.eqb_eq in H. rewrite H. rewrite mono_table_nth by lia. symmetry. apply dot_spec_mono.
+Qed.
+
 (* for every pair of 128-bit field elements the kernels compute dot(a, b) = a*b*x^-128 of RFC 8452 *)
 Theorem dot_impl_spec : forall a b, a < 2 ^ 128 -> b < 2 ^ 128 -> dot_impl a b = dot_spec a b.
 Proof.
-  apply bilinear_ext.
+  apply (bilinear_ext dot_impl dot_spec 128).
   - exact dot_impl_lin_l.
   - exact dot_impl_lin_r.
   - intros b x y. apply dot_spec_lxor_l.
   - intros a x y. apply dot_spec_lxor_r.
-  - intros i j Hi Hj. pose proof basis_ok as H. unfold basis_check in H. cbv zeta in H.
-    rewrite forallb_forall in H. specialize (H i (range128_In i Hi)).
-    rewrite forallb_forall in H. specialize (H j (range128_In j Hj)).
-    apply N.eqb_eq in H. rewrite H, mono_table_nth by lia. symmetry. apply dot_spec_mono.
+  - exact basis_pair.
+Qed.
+
+(* ---------- Part 6: the kernels stay within 64 bits ---------- *)
+Definition b64 (x : N) : Prop := N.land x (N.ones 64) = x.
+
+Lemma b64_iff x : b64 x <-> x < 2 ^ 64.
+Proof.
+  unfold b64. rewrite N.land_ones. split; intros H.
+  - rewrite <- H. apply N.mod_lt. discriminate.
+  - apply N.mod_small. exact H.
+Qed.
+
+Lemma b64_lxor x y : b64 x -> b64 y -> b64 (N.lxor x y).
+Proof. unfold b64. intros Hx Hy. rewrite land_lxor_l, Hx, Hy. reflexivity. Qed.
+
+Lemma b64_lor x y : b64 x -> b64 y -> b64 (N.lor x y).
+Proof. unfold b64. intros Hx Hy. rewrite N.land_lor_distr_l, Hx, Hy. reflexivity. Qed.
+
+Lemma b64_shiftr x k : b64 x -> b64 (N.shiftr x k).
+Proof.
+  rewrite !b64_iff. intros H. rewrite N.shiftr_div_pow2.
+  apply N.le_lt_trans with x; [|exact H]. apply N.div_le_upper_bound; [apply N.pow_nonzero; discriminate|].
+  assert (2 ^ k <> 0) by (apply N.pow_nonzero; discriminate). nia.
+Qed.
+
+Lemma b64_shlw x s : b64 (shlw x s).
+Proof. apply b64_iff. unfold shlw, M64. apply N.mod_lt. discriminate. Qed.
+
+Lemma b64_masked c m : b64 m -> b64 (N.land c m).
+Proof. unfold b64. intros H. rewrite <- N.land_assoc, H. reflexivity. Qed.
+
+Lemma b64_mul32 a b : b64 (mul32 a b).
+Proof. unfold mul32. cbv zeta. repeat apply b64_lor; apply b64_masked; reflexivity. Qed.
+
+Lemma b64_mul64 a b : b64 (fst (mul64 a b)) /\ b64 (snd (mul64 a b)).
+Proof.
+  unfold mul64. cbv zeta. cbn [fst snd]. split.
+  - apply b64_lxor; [apply b64_mul32|apply b64_shlw].
+  - apply b64_lxor; [apply b64_mul32|]. apply b64_shiftr. repeat apply b64_lxor; apply b64_mul32.
+Qed.
+
+Lemma b64_polyvalDot a b : b64 (fst (polyvalDot a b)) /\ b64 (snd (polyvalDot a b)).
+Proof.
+  unfold polyvalDot, pv_reduce, pv_karatsuba. cbv zeta. cbn [fst snd].
+  pose proof (b64_mul64 (fst a) (fst b)) as [A1 A2]. pose proof (b64_mul64 (snd a) (snd b)) as [B1 B2].
+  pose proof (b64_mul64 (N.lxor (fst a) (snd a)) (N.lxor (fst b) (snd b))) as [C1 C2].
+  split; repeat (apply b64_lxor || apply b64_shiftr || apply b64_shlw || assumption).
+Qed.
+
+(* ---------- Part 7: bytes ---------- *)
+Lemma le_val_app a c : le_val (a ++ c) = le_val a + 256 ^ N.of_nat (length a) * le_val c.
+Proof.
+  induction a as [|x a IH]; [simpl; lia|].
+  cbn [app le_val length]. rewrite IH, Nnat.Nat2N.inj_succ, N.pow_succ_r'. lia.
+Qed.
+
+Lemma le_val_lt l : wfb l -> le_val l < 256 ^ N.of_nat (length l).
+Proof.
+  induction l as [|x l IH]; intros H; [reflexivity|]. inversion H; subst.
+  cbn [le_val length]. rewrite Nnat.Nat2N.inj_succ, N.pow_succ_r'. specialize (IH H3). lia.
+Qed.
+
+Lemma le_val_inj a b : wfb a -> wfb b -> length a = length b -> le_val a = le_val b -> a = b.
+Proof.
+  revert b; induction a as [|x a IH]; intros [|y b] Ha Hb Hl Hv; try discriminate; [reflexivity|].
+  inversion Ha; inversion Hb; subst. cbn [le_val] in Hv. simpl in Hl.
+  assert (x = y) by lia. subst. f_equal. apply IH; auto. lia.
+Qed.
+
+Lemma lxor_hi_add lo hi : lo < 2 ^ 64 -> N.lxor lo (N.shiftl hi 64) = lo + 2 ^ 64 * hi.
+Proof.
+  intros H. rewrite N.shiftl_mul_pow2, (N.mul_comm hi).
+  symmetry. apply N.add_nocarry_lxor. apply N.bits_inj. intros n. rewrite N.land_spec, N.bits_0.
+  destruct (N.lt_ge_cases n 64) as [Hn|Hn].
+  - rewrite N.mul_comm, N.mul_pow2_bits_low by exact Hn. apply andb_false_r.
+  - rewrite (small_bits lo 64 n H Hn). reflexivity.
+Qed.
+
+Lemma fe_of_block_n a : wfb a -> length a = 16%nat -> fe_of_block a = fe_of_n (le_val a).
+Proof.
+  intros Hw Hl. unfold fe_of_block, fe_of_n.
+  rewrite <- (firstn_skipn 8 a) at 3 4. rewrite le_val_app, firstn_length, Hl.
+  change (256 ^ N.of_nat (Nat.min 8 16)) with (2 ^ 64).
+  assert (H1 : le_val (firstn 8 a) < 2 ^ 64).
+  { pose proof (le_val_lt (firstn 8 a) (wfb_firstn 8 a Hw)) as H. rewrite firstn_length, Hl in H. exact H. }
+  assert (H2 : le_val (skipn 8 a) < 2 ^ 64).
+  { pose proof (le_val_lt (skipn 8 a) (wfb_skipn 8 a Hw)) as H. rewrite skipn_length, Hl in H. exact H. }
+  rewrite (firstn_all2 (n := 8) (skipn 8 a)) by (rewrite skipn_length; lia).
+  rewrite !N.land_ones, N.shiftr_div_pow2. f_equal; lia.
+Qed.
+
+Lemma block_of_fe_n x : b64 (fst x) -> b64 (snd x) -> block_of_fe x = le_bytes 16 (n_of_fe' x).
+Proof.
+  intros H1 H2. apply b64_iff in H1. apply b64_iff in H2. destruct x as [lo hi]. cbn [fst snd] in *.
+  unfold block_of_fe, n_of_fe'. cbn [fst snd]. rewrite lxor_hi_add by exact H1.
+  apply le_val_inj.
+  - apply wfb_app. split; apply le_bytes_wf.
+  - apply le_bytes_wf.
+  - rewrite app_length, !le_bytes_length. reflexivity.
+  - rewrite le_val_app, !le_val_le_bytes, le_bytes_length.
+    change (256 ^ N.of_nat 8) with (2 ^ 64). change (256 ^ N.of_nat 16) with (2 ^ 128).
+    rewrite !N.mod_small; lia.
+Qed.
+
+(* polyvalDot on 16-byte blocks = dot of RFC 8452 on their little-endian values *)
+Theorem polyvalDot_blocks a b : wfb a -> wfb b -> length a = 16%nat -> length b = 16%nat ->
+  block_of_fe (polyvalDot (fe_of_block a) (fe_of_block b)) = le_bytes 16 (dot_spec (le_val a) (le_val b)).
+Proof.
+  intros Ha Hb La Lb. pose proof (b64_polyvalDot (fe_of_block a) (fe_of_block b)) as [B1 B2].
+  rewrite block_of_fe_n by assumption. f_equal.
+  rewrite !fe_of_block_n by assumption. apply dot_impl_spec.
+  - pose proof (le_val_lt a Ha) as H. rewrite La in H. exact H.
+  - pose proof (le_val_lt b Hb) as H. rewrite Lb in H. exact H.
 Qed.
